@@ -425,6 +425,25 @@ pub fn corpus() -> Vec<Item> {
         spec.lf_global_prefix = Some(dict(true));
         out.push(item("rgb-40x24-splines", &img, vec![write_modular_frame(&img, &spec).bytes], 1));
     }
+    // LZ77 copies inside Modular sub-bitstreams (striped image, Gradient predictor): special two-dimensional distance
+    // codes and plain distances
+    for (name, mode, w, h) in [("rgb-33x9-lz77-special", 1u32, 33usize, 9usize), ("gray-70x40-lz77-plain-groups", 2, 70, 40)] {
+        use jxlw::entropy::{HybridCfg, Lz77};
+        let grey = mode == 2;
+        let img = ImageHeader::simple(w as u32, h as u32, grey, 8);
+        let mut fh = FrameHeader::modular_lossless(&img);
+        if grey {
+            fh.group_size_shift = 0;
+        }
+        let ch: Vec<Channel> = (0..if grey { 1 } else { 3 }).map(|c| Channel::from_fn(w, h, move |x, y| (((x / 3 + c) % 4) * 60 + (y / 4) * 5) as i32)).collect();
+        let mut spec = ModularFrameSpec::new(fh, ch);
+        spec.tree = Node::leaf(5);
+        spec.code = CodeOpts { use_prefix: true, cfg: Some(HybridCfg::new(4, 1, 0)), lz77: Some(Lz77 { min_symbol: 224, min_length: 3, len_cfg: HybridCfg::new(0, 0, 0) }), ..Default::default() };
+        spec.lz77_copies = mode;
+        let enc = write_modular_frame(&img, &spec);
+        assert!(enc.lz77_copies > 0, "corpus item {name} has no LZ77 copy");
+        out.push(item(name, &img, vec![enc.bytes], 1));
+    }
     // large varblocks in two 256x256 groups: the four lazily built coefficient orders (DCT128x128, 64x128, 256x256,
     // 128x256) and, with 64x64 / 32x64, the largest constant ones; the first also with Gabor + EPF
     for (name, t, size, filters) in [
